@@ -68,6 +68,16 @@ inductive IntOrPair where
   | two (a b : Int)
   deriving DecidableEq, Repr
 
+/-- `a[i]` on a sequence of unknown length (tuple / list / 1-d array modelled as `List`): negative indices count from
+the end, anything outside `[-len, len)` raises `IndexError` -/
+def listGet {α : Type} (a : List α) (i : Int) : Res α :=
+  let L : Int := a.length
+  let j := if i < 0 then i + L else i
+  if j < 0 ∨ j ≥ L then .error .indexError
+  else match a[j.toNat]? with
+    | some v => .ok v
+    | none => .error .indexError
+
 /-! ### facts the tie proofs use (positive divisor: floor semantics = `Int.ediv` / `Int.emod`) -/
 
 theorem fdiv_pos (a : Int) {b : Int} (h : 0 < b) : Int.fdiv a b = a / b :=
@@ -88,6 +98,8 @@ class PyOut (α : Type) where
 
 instance : PyArg Int where
   take | t :: r => (t.toInt?).map (·, r) | [] => none
+instance : PyArg Nat where
+  take | t :: r => (t.toNat?).map (·, r) | [] => none
 instance : PyArg Rat where
   take | t :: r => (OdcGeo.IO.parseRat? t).map (·, r) | [] => none
 instance : PyArg Bool where
@@ -127,6 +139,7 @@ instance : PyArg IntOrPair where
     | _ => none
 
 instance : PyOut Int where out := toString
+instance : PyOut Nat where out := toString
 instance : PyOut Rat where out := OdcGeo.IO.fmtRat
 instance : PyOut Bool where out := OdcGeo.IO.fmtBool
 instance : PyOut Unit where out _ := "U"
